@@ -56,8 +56,14 @@ func c17OperatorSlowAPI(r *Run, c *Case, rng *Rng) {
 	// --- configuration
 	nq := rng.Range(1, 3)
 	nh := rng.Range(2, 4)
+	if nh == 2 && rng.Chance(60) {
+		nh = rng.Range(3, 4) // mostly at least two hooks are enabled before the slow one: their runs alternate behind h1
+	}
 	qa := rng.Range(1, nq)      // the queue hook h1 hangs in
-	slowHook := rng.Range(2, nh) // the hook whose kubernetes binding meets the silent API server
+	slowHook := nh // the hook whose kubernetes binding meets the silent API server: mostly the last one
+	if rng.Chance(30) {
+		slowHook = rng.Range(2, nh)
+	}
 	var hooks []*c17Hook
 	var namespaces []string
 	for i := 1; i <= nh; i++ {
@@ -70,7 +76,7 @@ func c17OperatorSlowAPI(r *Run, c *Case, rng *Rng) {
 				b.kube, b.queueNo = false, qa
 			case i == slowHook && j == 1:
 				b.kube = true
-			case i < slowHook && j == 1 && rng.Chance(60):
+			case i < slowHook && j == 1 && rng.Chance(80):
 				b.kube, b.queueNo = false, qa // other hooks' work behind the hanging h1: not combined with its run
 			}
 			if b.kube {
@@ -257,8 +263,25 @@ func c17OperatorSlowAPI(r *Run, c *Case, rng *Rng) {
 	}
 	behind := 0 // ticks for queue qa: they wait behind the hanging h1
 	var lastHook *c17Hook = hooks[0]
-	for i := rng.Range(0, 6); i > 0; i-- {
+	var inQa []*c17Bind // bindings whose runs queue up behind the hanging h1
+	for _, b := range schedBinds {
+		if b.queueNo == qa {
+			inQa = append(inQa, b)
+		}
+	}
+	for i := rng.Range(1, 6); i > 0; i-- {
 		b := schedBinds[rng.Intn(len(schedBinds))]
+		if rng.Chance(60) {
+			// prefer a run of its own behind h1: a binding of another hook than the last one that went into qa
+			if n := len(inQa); n > 0 {
+				for k, off := 0, rng.Intn(n); k < n; k++ {
+					if o := inQa[(off+k)%n]; bindHook[o] != lastHook {
+						b = o
+						break
+					}
+				}
+			}
+		}
 		if !tick(b, wStepTimeout) {
 			c.Inconcl = "the events consumer did not accept a tick before the shutdown"
 			return
